@@ -277,6 +277,7 @@ func (st *State) addTrace(ev TraceEv) {
 // Engine-wide fresh names
 
 type Engine struct {
+	dropAtBound bool              // bounded function: paths that exceed the unwinding bound are dropped (stated bound)
 	unrollAll   bool              // bounded variant: loops are unrolled instead of cut at their invariants
 	entryShapes map[string]string // input-map name -> shape of its entries in the current variant (bounded shapes)
 	prog     *ssa.Program
